@@ -6,6 +6,13 @@ import os
 import re
 
 HERE = os.path.dirname(os.path.abspath(__file__))
+# remarks on single rows (see DESIGN.md section 8 for the reasoning)
+NOTES = {
+    "C15-8": " -- by design: the ABI's return column is a parameter of C15",
+    "C03-17": " -- a fault clause: reported by C05 and C20 (checked by hand: both exit 1 with a failing input)",
+    "C04-14": " -- by the text of the property: the state a FAILED apply() leaves is C05's clause, and it is closed and serializable",
+    "C06-15": " -- by the text of the property: the state a FAILED apply() leaves is C05's clause, and it is closed and serializable",
+}
 rows = []
 for d in sorted(glob.glob(os.path.join(HERE, "seeded", "C*-*")), key=lambda p: (os.path.basename(p).split("-")[0], int(os.path.basename(p).split("-")[1]))):
     sid = os.path.basename(d)
@@ -27,13 +34,14 @@ for d in sorted(glob.glob(os.path.join(HERE, "seeded", "C*-*")), key=lambda p: (
         m = re.search(r"(C\d\d) quick", line)
         if m and m.group(1) != sid.split("-")[0]:
             res += f" (by {m.group(1)})"
+    res += NOTES.get(sid, "")
     rows.append((sid, ", ".join(files), first, res))
 with open(os.path.join(HERE, "seeded", "README.md"), "w") as f:
     f.write("""# Seeded changes
 
 Each directory holds a change to GrammaTech/gtirb-rewriting: `patch.diff`, `demo.py` (exits 0 on the unchanged tree, 1 with
 the patch) and `meta.json`.  Most were written by independent sub-agents that were given only the text of one property and a
-scratch worktree (nothing from /verif), in six rounds (see DESIGN.md section 8); a few are reversals of the repairs made to the repository (their
+scratch worktree (nothing from /verif), in nine rounds (see DESIGN.md section 8); a few are reversals of the repairs made to the repository (their
 `meta.json` says so).  Every change was confirmed in a scratch worktree (demo fails with / passes without the patch; pytest
 still 331 passed, 2 e2e baseline failures).  None of them is ever committed to /repo.  `./tools_run_seeded.sh [ids]` applies
 each one to /repo in turn, runs the property's quick check, writes the outcome to `seeded/results/<id>.txt` and undoes the
